@@ -746,7 +746,11 @@ func (h *RealtimeHandler) HandleEntityComponentUpdate(ctx context.Context, msg h
 		Data:                  req.Data,
 	}
 
-	session.GetEntityComponents().Update(&entityComponent)
+	if err := session.GetEntityComponents().Update(&entityComponent); err != nil {
+		// The component was never added (or has been removed): nothing to
+		// update and nothing to relay.
+		return nil
+	}
 
 	h.FeatureFlags.IfNotSet(featureflag.FlagDisableEntityComponentUpdateBroadcast, func() {
 		session.GetEntityComponents().Notify(entityComponent.EntityComponentTypeId, func(participantIDs []uint32) {
